@@ -94,12 +94,42 @@ func c09Exit(p *chk.Prog, r *chk.Report) {
 	// the addresses handed on are the ones parsed from the status, all of them
 	okIPs := false
 	if lbIPs != nil {
+		// the list handed on, and the locals it is a plain copy of (a list built by a helper arrives through the
+		// helper's result)
+		srcs := map[types.Object]bool{lbIPs: true}
+		for round := 0; round < 4; round++ {
+			for o := range srcs {
+				for _, d := range assignsTo(f, o) {
+					as, isAs := d.(*ast.AssignStmt)
+					if !isAs || len(as.Lhs) != len(as.Rhs) {
+						continue
+					}
+					for i, l := range as.Lhs {
+						if id, isId := l.(*ast.Ident); isId && f.ObjOf(id) == o {
+							if r, isR := ast.Unparen(as.Rhs[i]).(*ast.Ident); isR && f.ObjOf(r) != nil && !f.IsNilLit(r) {
+								if _, isVar := f.ObjOf(r).(*types.Var); isVar {
+									srcs[f.ObjOf(r)] = true
+								}
+							}
+						}
+					}
+				}
+			}
+		}
+		isList := func(e ast.Expr) bool {
+			id, isId := ast.Unparen(e).(*ast.Ident)
+			return isId && srcs[f.ObjOf(id)]
+		}
+		var handle []chk.Site
+		if loop != nil {
+			handle = g.Find(func(n ast.Node) bool { return n == ast.Node(loop.X) })
+		}
 		for _, rs := range f.RangeLoops(func(e ast.Expr) bool {
 			return f.MatchWith("S.Status.LoadBalancer.Ingress", e, chk.H("S", isParam(f, "svc"))) != nil
 		}) {
-			isApp := f.IsAssignPat("L", "append(L, IP)", chk.H("L", f.IsObj(lbIPs)), chk.H("IP", definedBy(g, "net.ParseIP(EL.IP)", chk.H("EL", rangeVal(f, rs)))))
-			// an iteration either appends or leaves the function through deleteBalancer
-			okIPs = !loopSkipsWithout(g, rs, isApp, chk.NoGuard)
+			isApp := f.IsAssignPat("L", "append(L, IP)", chk.H("L", isList), chk.H("IP", definedBy(g, "net.ParseIP(EL.IP)", chk.H("EL", rangeVal(f, rs)))))
+			// every iteration appends, and an iteration that leaves the loop early never gets to the protocols
+			okIPs = len(handle) == 1 && forallBefore(f, g, rs, chk.GEvent(isApp), handle[0]) == ""
 		}
 	}
 	x.Check("SetBalancer:addresses-are-the-status", f.Pos(), okIPs, "", "the addresses evaluated are not exactly those recorded in the Service status")
